@@ -57,6 +57,7 @@ type detRun struct {
 	flushFiles map[string]map[string]bool
 	sched      []string
 	untied     bool
+	dropped    map[string]bool // measurements dropped while operations were in flight (lock-point mode)
 }
 
 func rev(xs []string) []string {
@@ -369,6 +370,13 @@ func (d *detRun) query(ms string, asc bool, context string) {
 	}
 	if d.closed {
 		d.c.Count("probe:query-after-close-begun")
+		return
+	}
+	if d.dropped[ms] {
+		d.c.Count("probe:query-of-dropped-measurement")
+		if perr != "" {
+			d.viol(line, "panic", "query of a dropped measurement: "+perr)
+		}
 		return
 	}
 	if want := d.spec.read(ms, asc); rowsText != want {
